@@ -78,7 +78,7 @@ def u_scheme_init_defaults(I):
     return {'inputs': {}}
 
 
-def u_update_frame(I):
+def u_update_frame(I, both_uq=False):
     """GroupLibrary.Update: writes only this library's contents (copy on first sight -- no aliasing with the source library --
     else update of this library's own correlation) and this library's uq_contents binding"""
     ctx = I.ctx
@@ -92,7 +92,8 @@ def u_update_frame(I):
     mine_a = mkc('mine-A', 'param')
     theirs_a, theirs_b = mkc('theirs-A', 'param'), mkc('theirs-B', 'param')
     own_sets_a = {'thermochem': mine_a}
-    me = Obj(cls, {'scheme': None, 'path': None, 'name': None, 'contents': {('gid', 1): own_sets_a}, 'uq_contents': {}}, 'param')
+    my_uq = {'dof': 5} if both_uq else {}
+    me = Obj(cls, {'scheme': None, 'path': None, 'name': None, 'contents': {('gid', 1): own_sets_a}, 'uq_contents': my_uq}, 'param')
     I.global_ids[id(me.fields['contents'])] = 'self.contents'
     other_contents = {('gid', 1): {'thermochem': theirs_a}, ('gid', 2): {'thermochem': theirs_b}}
     other = Obj(cls, {'scheme': None, 'path': None, 'name': None, 'contents': other_contents, 'uq_contents': {'dof': 3}}, 'param')
@@ -133,6 +134,10 @@ def u_update_frame(I):
                 ('the other library is not written', z3.BoolVal(not [x for x in w if 'other' in str(x)] and other.fields['contents'] is other_contents
                                                                  and other_contents[('gid', 1)]['thermochem'] is theirs_a and len(other_contents) == 2)),
                 ('uncertainty data taken over only when this library has none', z3.BoolVal(me.fields['uq_contents'] is other.fields['uq_contents']))]
+    if both_uq:
+        check_outcome(I, out, raises={'ValueError': z3.BoolVal(True)})
+        ctx.oblige('the uncertainty data of this library are kept when the other library brings its own (the merge is refused)', z3.BoolVal(me.fields['uq_contents'] is my_uq and my_uq == {'dof': 5}))
+        return {'inputs': {}}
     check_outcome(I, out, raises={}, returns=posts)
     return {'inputs': {}}
 
